@@ -8,12 +8,44 @@ verus! {
 
 //@extract file=src/taproot.rs item="pub struct ControlBlock"
 //@end
+//@extract file=src/taproot.rs item="pub const TAPROOT_CONTROL_NODE_SIZE"
+//@end
+//@extract file=src/taproot.rs item="pub const TAPROOT_CONTROL_BASE_SIZE"
+//@end
+//@extract file=src/taproot.rs item="pub enum TaprootError"
+//@end
 
 impl TapTweakHash {
 //@extract file=src/taproot.rs fn=from_key_and_tweak in="impl TapTweakHash"
 //@ret r
 //@spec
 //@|     ensures r@ == tweak_hash_spec(internal_key@, merkle_root)
+//@end
+}
+impl TapTweakHash {
+//@extract file=src/taproot.rs fn=to_scalar in="impl TapTweakHash"
+//@ret r
+//@spec
+//@|     requires scalar_in_range(self@)      // "This is statistically extremely unlikely to panic."
+//@|     ensures r@ == self@
+//@end
+}
+/// the tweak is a valid scalar and the tweaked point is not the point at infinity (both fail with negligible probability;
+/// the code `.expect()`s them)
+spec fn tweakable(internal: Seq<u8>, root: Option<TapNodeHash>) -> bool {
+    scalar_in_range(tweak_hash_spec(internal, root)) && tweak_add_ok(internal, tweak_hash_spec(internal, root))
+}
+// `impl TapTweak for UntweakedPublicKey` (src/schnorr.rs): the trait method body is extracted into an inherent impl of the
+// (environment) key type, because a precondition cannot be attached to an impl of a trait whose declaration is extracted
+// verbatim. Callers (`internal_key.tap_tweak(secp, root)`) resolve to it unchanged.
+impl secp256k1_zkp::XOnlyPublicKey {
+//@extract file=src/schnorr.rs fn=tap_tweak in="impl TapTweak for UntweakedPublicKey"
+//@ret r
+//@spec
+//@|     requires tweakable(self@, merkle_root)
+//@|     ensures
+//@|         (r.0.0@, r.1 is Odd) == tweak_add_spec(self@, tweak_hash_spec(self@, merkle_root)),
+//@|         tweak_check_spec(self@, r.0.0@, r.1 is Odd, tweak_hash_spec(self@, merkle_root)),
 //@end
 }
 impl TaprootMerkleBranch {
@@ -33,7 +65,21 @@ spec fn cb_root(cb: ControlBlock, script: Script) -> Seq<u8> {
 }
 spec fn cb_tweak(cb: ControlBlock, script: Script) -> Seq<u8> { h_tweak(cb.internal_key@ + cb_root(cb, script)) }
 
+impl TaprootMerkleBranch {
+//@extract file=src/taproot.rs fn=from_inner in="impl TaprootMerkleBranch"
+//@ret r
+//@spec
+//@|     ensures inner@.len() <= 128 ==> (r matches Ok(b) && b.0 == inner),
+//@|         inner@.len() > 128 ==> (r matches Err(TaprootError::InvalidMerkleTreeDepth(d)) && d == inner@.len()),
+//@end
+}
 impl ControlBlock {
+//@extract file=src/taproot.rs fn=size in="impl ControlBlock"
+//@ret r
+//@spec
+//@|     requires self.merkle_branch.0@.len() <= 128
+//@|     ensures r == 33 + 32 * self.merkle_branch.0@.len()      // "the length implied by the leaf's depth"
+//@end
 //@extract file=src/taproot.rs fn=verify_taproot_commitment in="impl ControlBlock"
 //@ret r
 //@spec
@@ -58,6 +104,29 @@ impl ControlBlock {
 //@| }
 //@at "let tweak = TapTweakHash :: from_key_and_tweak" before
 //@| proof { let bs = branch_seq(self.merkle_branch); assert(bs.take(bs.len() as int) =~= bs); }
+//@end
+}
+
+// ---- the output key: TaprootSpendInfo::new_key_spend -------------------------------------------------------------
+use std::collections::{BTreeMap, BTreeSet};
+//@extract file=src/taproot.rs item="type ScriptMerkleProofMap"
+//@end
+//@extract file=src/taproot.rs item="pub struct TaprootSpendInfo"
+//@end
+impl TaprootSpendInfo {
+//@extract file=src/taproot.rs fn=new_key_spend in="impl TaprootSpendInfo"
+//@ret r
+//@spec
+//@|     requires tweakable(internal_key@, merkle_root)
+//@|     ensures
+//@|         r.internal_key == internal_key, r.merkle_root == merkle_root,
+//@|         (r.output_key.0@, r.output_key_parity is Odd) == tweak_add_spec(internal_key@, tweak_hash_spec(internal_key@, merkle_root)),
+//@|         tweak_check_spec(internal_key@, r.output_key.0@, r.output_key_parity is Odd, tweak_hash_spec(internal_key@, merkle_root)),
+//@end
+//@extract file=src/taproot.rs fn=tap_tweak in="impl TaprootSpendInfo"
+//@ret r
+//@spec
+//@|     ensures r@ == tweak_hash_spec(self.internal_key@, self.merkle_root)
 //@end
 }
 
@@ -97,36 +166,78 @@ fn client_verify_leaf<C: secp256k1_zkp::Verification>(
     cb.verify_taproot_commitment(secp, output_key, &l.script)
 }
 
-/// Executable client building a three-leaf tree  ((s0, s1), s2)  from scratch: the precondition node_wf is
-/// established by the constructors and kept by combine, so every leaf of the result verifies as above.
-fn client_three_leaves<C: secp256k1_zkp::Verification>(
-    secp: &Secp256k1<C>, s0: Script, s1: Script, s2: Script, v: LeafVersion, i: usize,
-    internal_key: UntweakedPublicKey, parity: secp256k1_zkp::Parity, output_key: &TweakedPublicKey,
-) -> (r: Option<bool>)
-    requires i < 3,
-        scalar_in_range(h_tweak(internal_key@ + pair_hash(pair_hash(tap_leaf_hash(s0, v), tap_leaf_hash(s1, v)), tap_leaf_hash(s2, v)))),
-    ensures r == Some(tweak_check_spec(internal_key@, output_key.0@, parity is Odd,
-        h_tweak(internal_key@ + pair_hash(pair_hash(tap_leaf_hash(s0, v), tap_leaf_hash(s1, v)), tap_leaf_hash(s2, v)))))
+/// Executable client building the three-leaf tree  ((s0, s1), s2)  from scratch: node_wf is established by the leaf
+/// constructor and kept by combine (which cannot refuse at depth 2).
+fn build_three(s0: Script, s1: Script, s2: Script, v: LeafVersion) -> (root: NodeInfo)
+    ensures node_wf(root), root.leaves@.len() == 3,
+        root.leaves@[0].script == s0 && root.leaves@[1].script == s1 && root.leaves@[2].script == s2,
+        root.hash@ == pair_hash(pair_hash(tap_leaf_hash(s0, v), tap_leaf_hash(s1, v)), tap_leaf_hash(s2, v)),
 {
     let n0 = NodeInfo::new_leaf_with_ver(s0, v);
     let n1 = NodeInfo::new_leaf_with_ver(s1, v);
     let n2 = NodeInfo::new_leaf_with_ver(s2, v);
     match NodeInfo::combine(n0, n1) {
         Ok(n01) => {
-          proof {   // both leaves of n01 carry a 1-entry branch
-              assert(n01.leaves@[1] == n01.leaves@[n0.leaves@.len() as int + 0]);
-              assert(n01.leaves@[0].merkle_branch.0@.len() == 1 && n01.leaves@[1].merkle_branch.0@.len() == 1);
-          }
-          match NodeInfo::combine(n01, n2) {
-            Ok(root) => Some(client_verify_leaf(secp, &root, i, internal_key, parity, output_key)),
-            Err(_) => { assert(false); None }   // depth 2 < 128: combine cannot refuse
-          }
+            proof {   // both leaves of n01 carry a 1-entry branch
+                assert(n01.leaves@[1] == n01.leaves@[n0.leaves@.len() as int + 0]);
+                assert(n01.leaves@[0].merkle_branch.0@.len() == 1 && n01.leaves@[1].merkle_branch.0@.len() == 1);
+            }
+            match NodeInfo::combine(n01, n2) {
+                Ok(root) => {
+                    proof { assert(root.leaves@[2] == root.leaves@[n01.leaves@.len() as int + 0]); }
+                    root
+                },
+                Err(_) => { assert(false); unreached() }   // depth 2 < 128: combine cannot refuse
+            }
         },
-        Err(_) => { assert(false); None }
+        Err(_) => { assert(false); unreached() }
     }
 }
 
-proof fn canary_commitment(cb: ControlBlock, script: Script) requires scalar_in_range(cb_tweak(cb, script)) ensures false {}
+/// Each of the three leaves verifies against ANY output key exactly when libsecp confirms the tweak by
+/// H_TapTweak(internal key ‖ root).
+fn client_three_leaves<C: secp256k1_zkp::Verification>(
+    secp: &Secp256k1<C>, s0: Script, s1: Script, s2: Script, v: LeafVersion, i: usize,
+    internal_key: UntweakedPublicKey, parity: secp256k1_zkp::Parity, output_key: &TweakedPublicKey,
+) -> (r: bool)
+    requires i < 3,
+        scalar_in_range(h_tweak(internal_key@ + pair_hash(pair_hash(tap_leaf_hash(s0, v), tap_leaf_hash(s1, v)), tap_leaf_hash(s2, v)))),
+    ensures r == tweak_check_spec(internal_key@, output_key.0@, parity is Odd,
+        h_tweak(internal_key@ + pair_hash(pair_hash(tap_leaf_hash(s0, v), tap_leaf_hash(s1, v)), tap_leaf_hash(s2, v))))
+{
+    let root = build_three(s0, s1, s2, v);
+    client_verify_leaf(secp, &root, i, internal_key, parity, output_key)
+}
+
+/// End to end (relative to the ASSUMED libsecp consistency add_tweak/tweak_add_check): the output key and parity
+/// computed by new_key_spend for the tree's root accept the control block of every leaf.
+fn client_end_to_end<C: secp256k1_zkp::Verification>(
+    secp: &Secp256k1<C>, s0: Script, s1: Script, s2: Script, v: LeafVersion, i: usize, internal_key: UntweakedPublicKey,
+) -> (r: bool)
+    requires i < 3,
+        ({ let t = h_tweak(internal_key@ + pair_hash(pair_hash(tap_leaf_hash(s0, v), tap_leaf_hash(s1, v)), tap_leaf_hash(s2, v)));
+           scalar_in_range(t) && tweak_add_ok(internal_key@, t) }),
+    ensures r
+{
+    let root = build_three(s0, s1, s2, v);
+    let info = TaprootSpendInfo::new_key_spend(secp, internal_key, Some(root.hash));
+    client_verify_leaf(secp, &root, i, internal_key, info.output_key_parity, &info.output_key)
+}
+
+// vacuity canaries (each must FAIL): the preconditions used above are satisfiable and the assumed axioms are not contradictory
+proof fn canary_commitment(cb: ControlBlock, script: Script, x: [u8; 32], y: [u8; 32])
+    requires scalar_in_range(cb_tweak(cb, script))
+    ensures false
+{
+    broadcast use axiom_array32_ord;
+    lemma_pair_code(x@, y@); lemma_pair_comm(x@, y@);
+}
+proof fn canary_end_to_end(key: Seq<u8>, n: NodeInfo, i: int)
+    requires node_wf(n), 0 <= i < n.leaves@.len(), scalar_in_range(h_tweak(key + n.hash@)), tweak_add_ok(key, h_tweak(key + n.hash@))
+    ensures false
+{
+    axiom_leaf_vec_len(n.leaves);
+}
 
 } // verus!
 fn main() {}
